@@ -291,9 +291,22 @@ def run_case(contract_id, case, props, tier="quick", seed=0, diff=True):
             r = discharge.check(pc + cl.hyps + [z3.Not(cl.goal)], timeout)
             report["solver_time_s"] += r["time_s"]
             report["sentinels"].append({"name": cl.name, "refuted": r["answer"] == "sat", "path": pi})
-        # CPython differential on this path
+        # CPython differential on this path (thorough: three different parameter valuations of the path)
         if diff:
             _differential(report, contract, case, path, P, pc, ctx, clauses, props, seed, pi)
+            if tier == "thorough" and getattr(contract, "diff", "formulas") == "formulas":
+                extra = []
+                for _ in range(2):
+                    v = pc_values(path, P, extra)  # the valuation the previous differential used
+                    if v is None:
+                        break
+                    block = [P.terms[n] != (z3.BoolVal(x) if isinstance(x, bool) else z3.IntVal(x)) for n, x in v.items() if isinstance(x, (int, bool))]
+                    if not block:
+                        break
+                    extra.append(z3.Or(*block))
+                    if pc_values(path, P, extra) is None:
+                        break
+                    _differential(report, contract, case, path, P, pc, ctx, clauses, props, seed, pi, extra=list(extra))
     for name, vals, goal in report.pop("native_false", []):
         if not any(ob["clause"] == name and ob["status"] == "refuted" for ob in report["obligations"]):
             report["faults"].append(f"differential(eval): clause {name} is discharged on every engine path but false on the native run at {vals}: {goal}"[:1200])
@@ -397,8 +410,8 @@ def _discharge_clause(report, contract, case, path, P, pc, cl, props, oid, timeo
         report["obligations"].append(ob)
 
 
-def _differential(report, contract, case, path, P, pc, ctx, clauses, props, seed, pi=None):
-    vals = pc_values(path, P)
+def _differential(report, contract, case, path, P, pc, ctx, clauses, props, seed, pi=None, extra=()):
+    vals = pc_values(path, P, extra)
     if vals is None:
         return
     # parameters not constrained by the path get the solver's default; all parameters need a value
@@ -501,7 +514,11 @@ def replay(contract_id, case, clause_name, params, raised=None, schedule=None):
     obs["native_check"] = r["answer"]
     if r["answer"] == "sat":
         consts = {c.decl().name(): c for c in _consts_in_order(cl.hyps + [cl.goal])}
-        obs["native_schedule"] = discharge.model_values(r["model"], consts)
+        obs["native_backend"] = r["backend"]
+        if r["model"] is not None:
+            obs["native_schedule"] = discharge.model_values(r["model"], consts)
+        else:
+            obs["native_schedule"] = discharge.cli_values(cl.hyps + [z3.Not(cl.goal)], {n: c for n, c in consts.items() if z3.is_int(c) or z3.is_bool(c)}, 30)
         obs["native_assertions"] = [str(h)[:300] for h in cl.hyps][:40]
         obs["violated_meaning"] = str(cl.goal)[:1000]
     return {"confirmed": r["answer"] == "sat", "observation": obs}
